@@ -107,6 +107,8 @@ def replay_plumb(ck, B, h):
     rest = vecs[k:k + 2]
     t = engb.le_int(rest[0], True) if rest else 0
     ns = engb.le_int(rest[1], False) if len(rest) > 1 else 0
+    if len(vecs) > k + 2:
+        z.types = z.types[:max(1, min(3, engb.le_int(vecs[k + 2], False)))]   # number of local time types the harness used
     nat = common.Native()
     cmd = f'localtime {z.cmd()} {t} {ns}'
     for o in nat.both([cmd])[0]:
